@@ -340,7 +340,7 @@ def literals(test: ast.AST, polarity: bool) -> List[Tuple[ast.AST, bool]]:
     return [(test, polarity)]
 
 
-def path_facts(cfg: CFG, node: ast.AST, fresh_only: bool = False) -> List[Tuple[ast.AST, bool]]:
+def path_facts(cfg: CFG, node: ast.AST, fresh_only: bool = False, asserts: bool = False) -> List[Tuple[ast.AST, bool]]:
     """ literals (expr, truth) that hold on *every* path from the function entry to `node`:
         a test contributes when cutting one of its outgoing edges makes the node unreachable.
         Handles early continue/return, inverted conditions and merged guards uniformly.
@@ -363,6 +363,24 @@ def path_facts(cfg: CFG, node: ast.AST, fresh_only: bool = False) -> List[Tuple[
                 if fresh_only and _stale(cfg, cand.id, label, target, test):
                     continue
                 facts += literals(test, polarity)
+    if asserts:
+        # an assertion every path to the node has passed holds there too (on request: the code relies on it)
+        for cand in cfg.nodes:
+            if cand.kind == "stmt" and isinstance(cand.ast, ast.Assert) and cand.id != target and cfg.dominates(cand.id, target):
+                names = {n.id for n in ast.walk(cand.ast.test) if isinstance(n, ast.Name)}
+                stale = False
+                if fresh_only:
+                    for nid in cfg.reach([cand.id], avoid=[]):
+                        if nid in (cand.id, target):
+                            continue
+                        between = cfg.nodes[nid]
+                        defs = set(cfg.defs_at(nid))
+                        if between.ast is not None and between.kind != "test":
+                            defs |= mutated_names(between.ast)
+                        if defs & names and target in cfg.reach([nid]) and nid in cfg.reach([cand.id]) and not cfg.dominates(target, nid):
+                            stale = True
+                if not stale:
+                    facts += literals(cand.ast.test, True)
     # conditional expressions / boolean guards enclosing the node inside one statement
     child = node
     cur = getattr(node, "_parent", None)
